@@ -327,7 +327,7 @@ def judge_c11(part, cfg, w, ctxs, pair, detail):
             if secret != want:
                 part.violation(f'C11:{name}:secret', f'[{cfg}] inputs {pair}: shares of {name} reconstruct to {secret} (mod {p}), '
                                f'{"plain reference" if kind == "plain" else "opened value"} is {want}', detail)
-        if len(part.samples) < 2 and t >= 1 and name in ('a*b', 'rbit0', 'x*y'):
+        if len(part.samples) < 2 and name in ('a*b', 'rbit0', 'x*y', 'a', 'x'):
             part.sample(dict(config=cfg, inputs=list(pair), value=name, shares=shares, modulus=p, reconstructs_to=secret))
     flag = ctxs[0].values.get('__range_ok')
     if flag is not None and not flag[1]:
